@@ -56,11 +56,14 @@ enum Op {
     Typed { json: String, want: Option<[u8; 32]> },
     Tx { json: String, key: [u8; 32], want: Vec<u8> },
     Random { words: usize },
+    Message { bytes: Vec<u8>, want: [u8; 32] },
+    PathText { text: String, want: Option<String> },
+    SigText { text: String, want: Option<String> },
 }
 impl Op {
     fn label(&self) -> String {
         match self { Op::Parse { text, .. } => format!("parse '{}…'", &text[..text.len().min(24)]), Op::Seed { pass, phrase, .. } => format!("seed('{}…', {pass:?})", &phrase[..phrase.len().min(16)]), Op::Derive { path, seed, .. } => format!("derive(seed {}…, {path})", eth::hex(&seed[..4])),
-            Op::Sign { key, digest, .. } => format!("sign(key {}…, digest {}…)", eth::hex(&key[..4]), eth::hex(&digest[..4])), Op::Address { key, .. } => format!("address(key {}…)", eth::hex(&key[..4])), Op::Typed { json, .. } => format!("typed data ({} bytes)", json.len()), Op::Tx { json, .. } => format!("transaction ({} bytes)", json.len()), Op::Random { words } => format!("random({words})") }
+            Op::Sign { key, digest, .. } => format!("sign(key {}…, digest {}…)", eth::hex(&key[..4]), eth::hex(&digest[..4])), Op::Address { key, .. } => format!("address(key {}…)", eth::hex(&key[..4])), Op::Typed { json, .. } => format!("typed data ({} bytes)", json.len()), Op::Tx { json, .. } => format!("transaction ({} bytes)", json.len()), Op::Random { words } => format!("random({words})"), Op::Message { bytes, .. } => format!("personal message ({} bytes)", bytes.len()), Op::PathText { text, .. } => format!("path '{text}'"), Op::SigText { text, .. } => format!("signature text '{}…'", &text[..text.len().min(12)]) }
     }
     /// runs the real library; Ok(outcome class) if it agrees with the reference, Err(description) otherwise
     fn run(&self) -> Result<String, String> {
@@ -73,13 +76,18 @@ impl Op {
             Op::Address { key, want } => { let a = PrivateKey::new(key).map_err(|e| format!("valid key rejected: {e}"))?.address().to_string(); if a == *want { Ok("address".into()) } else { Err(format!("address {a} instead of {want}")) } }
             Op::Typed { json, want } => match (serde_json::from_str::<TypedData>(json).ok().map(|t| t.signing_message().0), want) { (Some(g), Some(w)) if g == *w => Ok("digest".into()), (None, None) => Ok("refused".into()), (g, w) => Err(format!("typed-data digest {:?}, reference {:?}", g.map(|x| eth::hex(&x)), w.map(|x| eth::hex(&x)))) },
             Op::Tx { json, key, want } => { let tx = serde_json::from_str::<Transaction>(json).map_err(|e| format!("transaction rejected: {e}"))?; let k = PrivateKey::new(key).map_err(|e| format!("valid key rejected: {e}"))?; let enc = tx.encode(k.sign(tx.signing_message())); if enc == *want { Ok("encoded".into()) } else { Err(format!("signed transaction {} instead of {}", eth::hex(&enc), eth::hex(want))) } }
+            Op::Message { bytes, want } => { let d = hdwallet::message::EthereumMessage(&bytes[..]).signing_message().0; if d == *want { Ok("digest".into()) } else { Err(format!("message digest {} instead of {}", eth::hex(&d), eth::hex(want))) } }
+            Op::PathText { text, want } => match (text.parse::<hdk::Path>().ok().map(|p| p.to_string()), want) { (Some(g), Some(w)) if g == *w => Ok("path".into()), (None, None) => Ok("refused".into()), (g, w) => Err(format!("path text gives {g:?}, reference {w:?}")) },
+            Op::SigText { text, want } => match (text.parse::<hdwallet::account::Signature>().ok().map(|x| x.to_string()), want) { (Some(g), Some(w)) if g == *w => Ok("signature".into()), (None, None) => Ok("refused".into()), (g, w) => Err(format!("signature text gives {g:?}, reference {w:?}")) },
             Op::Random { words } => { let r = Mnemonic::random(hdwallet::mnemonic::Language::English, *words); match r { Err(_) => Ok("error".into()), Ok(m) => Ok(format!("phrase:{}", m.to_phrase())) } }
         }
     }
 }
 
 #[derive(Clone)]
-struct Scenario { name: &'static str, pid: &'static str, bound: usize, threads: Vec<Vec<Op>>, max_schedules: usize }
+struct Scenario { name: &'static str, pid: &'static str, bound: usize, threads: Vec<Vec<Op>>, max_schedules: usize,
+    /// calls made one after the other before the threads start (caches and lazily built tables are warm, lists are in some order)
+    warmup: Vec<Op> }
 
 fn scenarios(thorough: bool) -> Vec<Scenario> {
     let curve = Curve::new();
@@ -100,28 +108,58 @@ fn scenarios(thorough: bool) -> Vec<Scenario> {
     let typed = |d: &eip712::Doc| Op::Typed { json: d.to_json().to_text(), want: match eip712::evaluate(d).0 { Class::Accept(x) => Some(x.digest), _ => None } };
     let (d1, d2) = (doc("string", J::s("Cow")), doc("bytes", J::s("0x436f77")));
     let txop = |kind: Kind, k: usize| { let t = txjson::template(kind, true); let d = t.signing_hash(); let (r, s, odd, _) = curve.sign_rfc6979(&keys[k], &d); Op::Tx { json: txjson::tx_json(&t, txjson::Spell::Auto).to_text(), key: keys[k].to_be(), want: t.signed_payload(odd, &r.to_nat(), &s.to_nat()) } };
+    let msg = |b: &[u8]| Op::Message { bytes: b.to_vec(), want: eth::eip191_digest(b) };
+    let path = |t: &str| Op::PathText { text: t.to_string(), want: match refmodel::grammar::classify_path(t) { Class::Accept(p) => Some(refmodel::grammar::path_text(&p)), _ => None } };
+    let sigt = |k: usize, d: u8, mangle: bool| { let (r, s2, odd, _) = curve.sign_rfc6979(&keys[k], &[d; 32]); let t = eth::sig_text(&r, &s2, odd); if mangle { Op::SigText { text: format!("{}1d", &t[..130]), want: None } } else { Op::SigText { text: t.clone(), want: Some(t) } } };
+    let d3 = { let mut d = d1.clone(); d.types[0] = ("EIP712Domain".into(), sv(&[("chainId", "uint256"), ("name", "string")])); d }; // reordered domain type: refused
+    let d4 = { let mut d = d1.clone(); d.types[1] = ("Mail".into(), sv(&[("from", "Person"), ("n", "uint8")])); d };                       // 300 out of range for uint8: refused
+    let txal = |kind: Kind, k: usize, al: Vec<([u8; 20], Vec<[u8; 32]>)>| { let mut t = txjson::template(kind, true); t.access_list = al; let d = t.signing_hash(); let (r, s, odd, _) = curve.sign_rfc6979(&keys[k], &d); Op::Tx { json: txjson::tx_json(&t, txjson::Spell::Auto).to_text(), key: keys[k].to_be(), want: t.signed_payload(odd, &r.to_nat(), &s.to_nat()) } };
+    let (lx, ly, lz) = (vec![([0xc1u8; 20], vec![[1u8; 32]])], vec![([0xc2u8; 20], vec![[2u8; 32], [3u8; 32]])], vec![([0xc3u8; 20], vec![])]);
+    let dg = { let mut d = d1.clone(); d.domain = J::obj(vec![("name", J::s("hdwallet")), ("chainId", J::n("5"))]); d };   // same types, another chain
+    let dh = { let mut d = d1.clone(); d.domain = J::obj(vec![("name", J::s("other")), ("chainId", J::n("1"))]); d };      // same types, another name
     let mut v = vec![
-        Scenario { name: "first-use-of-the-word-list-2t", pid: "C01", bound: 3, threads: vec![vec![parse(&pa)], vec![parse(&pb)]], max_schedules: 50_000 },
-        Scenario { name: "parse-valid-invalid-long-2t", pid: "C01", bound: 2, threads: vec![vec![parse(&pa), parse(&bad)], vec![parse(&pc), parse(&pa)]], max_schedules: 50_000 },
-        Scenario { name: "seed-same-words-other-passphrase-2t", pid: "C02", bound: 2, threads: vec![vec![seed(&pa, "")], vec![seed(&pa, "TREZOR")]], max_schedules: 50_000 },
-        Scenario { name: "seed-other-words-2t", pid: "C02", bound: 2, threads: vec![vec![seed(&pa, "TREZOR"), seed(&pb, "")], vec![seed(&pb, "TREZOR")]], max_schedules: 50_000 },
-        Scenario { name: "derive-prefix-chain-two-seeds-2t", pid: "C03", bound: 2, threads: vec![vec![derive(0, &acct(0)), derive(0, &[44 | HARD])], vec![derive(1, &acct(0)), derive(0, &[44 | HARD, 60 | HARD, HARD])]], max_schedules: 50_000 },
-        Scenario { name: "derive-siblings-2t", pid: "C03", bound: 2, threads: vec![vec![derive(0, &acct(0)), derive(0, &acct(1))], vec![derive(0, &acct(1)), derive(1, &acct(1))]], max_schedules: 50_000 },
-        Scenario { name: "address-of-different-keys-2t", pid: "C04", bound: 2, threads: vec![vec![addr(0), addr(2)], vec![addr(1), addr(0)]], max_schedules: 50_000 },
-        Scenario { name: "sign-different-keys-2t", pid: "C05", bound: 2, threads: vec![vec![sign(0, 0x11), sign(0, 0x22)], vec![sign(1, 0x11), sign(0, 0x11)]], max_schedules: 50_000 },
-        Scenario { name: "sign-three-keys-3t", pid: "C05", bound: 2, threads: vec![vec![sign(0, 0x11)], vec![sign(1, 0x11)], vec![sign(2, 0x11)]], max_schedules: 50_000 },
-        Scenario { name: "transactions-of-two-kinds-two-keys-2t", pid: "C06", bound: 2, threads: vec![vec![txop(Kind::Legacy, 0), txop(Kind::Eip1559, 0)], vec![txop(Kind::Eip1559, 1), txop(Kind::Eip2930, 0)]], max_schedules: 50_000 },
-        Scenario { name: "typed-data-same-names-other-members-2t", pid: "C08", bound: 2, threads: vec![vec![typed(&d1), typed(&d2)], vec![typed(&d2), typed(&d1)]], max_schedules: 50_000 },
-        Scenario { name: "generate-2t", pid: "C12", bound: 3, threads: vec![vec![Op::Random { words: 12 }], vec![Op::Random { words: 24 }]], max_schedules: 50_000 },
-        Scenario { name: "generate-then-parse-2t", pid: "C12", bound: 2, threads: vec![vec![Op::Random { words: 12 }, Op::Random { words: 12 }], vec![Op::Random { words: 12 }, parse(&pa)]], max_schedules: 50_000 },
+        // warm state first, then overlapping calls (a cache that is hit, re-ordered or re-keyed while another thread is between its look-up and its use)
+        Scenario { name: "warm-parse-then-two-phrases-2t", pid: "C01", bound: 2, warmup: vec![parse(&pa), parse(&pc)], threads: vec![vec![parse(&pb), parse(&pa)], vec![parse(&pa), parse(&pb)]], max_schedules: 50_000 },
+        Scenario { name: "seed-one-call-against-two-2t", pid: "C02", bound: 2, warmup: vec![], threads: vec![vec![seed(&pa, "TREZOR")], vec![seed(&pb, ""), seed(&pb, "TREZOR")]], max_schedules: 50_000 },
+        Scenario { name: "warm-seed-then-other-words-2t", pid: "C02", bound: 2, warmup: vec![seed(&pa, ""), seed(&pb, "")], threads: vec![vec![seed(&pa, "TREZOR"), seed(&pa, "")], vec![seed(&pb, "TREZOR"), seed(&pb, "")]], max_schedules: 50_000 },
+        Scenario { name: "warm-derive-then-siblings-2t", pid: "C03", bound: 2, warmup: vec![derive(0, &acct(0)), derive(0, &[44 | HARD, 60 | HARD, HARD, 1, 0])], threads: vec![vec![derive(0, &acct(1))], vec![derive(0, &acct(2))]], max_schedules: 50_000 },
+        Scenario { name: "warm-derive-then-other-seed-2t", pid: "C03", bound: 2, warmup: vec![derive(0, &acct(0)), derive(1, &acct(0))], threads: vec![vec![derive(0, &acct(1)), derive(1, &acct(1))], vec![derive(1, &acct(2)), derive(0, &acct(2))]], max_schedules: 50_000 },
+        Scenario { name: "warm-address-then-other-keys-2t", pid: "C04", bound: 2, warmup: vec![addr(0), addr(1)], threads: vec![vec![addr(0), addr(2)], vec![addr(2), addr(1)]], max_schedules: 50_000 },
+        Scenario { name: "warm-sign-then-other-keys-2t", pid: "C05", bound: 2, warmup: vec![sign(0, 0x11), sign(1, 0x11)], threads: vec![vec![sign(1, 0x22), sign(0, 0x22)], vec![sign(2, 0x11), sign(1, 0x11)]], max_schedules: 50_000 },
+        Scenario { name: "warm-access-list-then-another-2t", pid: "C06", bound: 2, warmup: vec![txal(Kind::Eip2930, 0, lx.clone()), txal(Kind::Eip2930, 0, lz.clone())], threads: vec![vec![txal(Kind::Eip2930, 0, lx.clone())], vec![txal(Kind::Eip1559, 1, ly.clone())]], max_schedules: 50_000 },
+        Scenario { name: "warm-access-lists-two-each-2t", pid: "C07", bound: 2, warmup: vec![txal(Kind::Eip2930, 0, lx.clone()), txal(Kind::Eip2930, 0, ly.clone())], threads: vec![vec![txal(Kind::Eip1559, 0, lx.clone()), txal(Kind::Eip1559, 0, ly.clone())], vec![txal(Kind::Eip1559, 1, ly.clone()), txal(Kind::Eip1559, 1, lx.clone())]], max_schedules: 50_000 },
+        Scenario { name: "warm-two-domains-then-the-first-again-2t", pid: "C08", bound: 2, warmup: vec![typed(&d1), typed(&dg)], threads: vec![vec![typed(&d1), typed(&dg)], vec![typed(&d1), typed(&dh)]], max_schedules: 50_000 },
+        Scenario { name: "warm-typed-data-then-redefinition-2t", pid: "C08", bound: 2, warmup: vec![typed(&d1)], threads: vec![vec![typed(&d2), typed(&d1)], vec![typed(&d1), typed(&d2)]], max_schedules: 50_000 },
+        Scenario { name: "warm-messages-then-the-first-again-2t", pid: "C10", bound: 2, warmup: vec![msg(b"a"), msg(b"ab")], threads: vec![vec![msg(b"a"), msg(b"abc")], vec![msg(b"ab"), msg(b"a")]], max_schedules: 50_000 },
+        Scenario { name: "warm-paths-then-the-first-again-2t", pid: "C14", bound: 2, warmup: vec![path("m/44'/60'/0'/0/0"), path("m/44'/60'/0'/0/1")], threads: vec![vec![path("m/44'/60'/0'/0/0"), path("m/0")], vec![path("m/44'/60'/0'/0/1"), path("m/44'/60'/0'/0/0")]], max_schedules: 50_000 },
+        Scenario { name: "warm-signature-texts-then-the-first-again-2t", pid: "C15", bound: 2, warmup: vec![sigt(0, 0x11, false), sigt(1, 0x22, false)], threads: vec![vec![sigt(0, 0x11, false), sigt(2, 0x11, false)], vec![sigt(1, 0x22, false), sigt(0, 0x11, false)]], max_schedules: 50_000 },
+        Scenario { name: "personal-messages-2t", pid: "C10", bound: 2, threads: vec![vec![msg(b"a"), msg(&[b'a'; 137])], vec![msg(b"ab"), msg(b"a")]], max_schedules: 50_000, warmup: vec![] },
+        Scenario { name: "path-texts-2t", pid: "C14", bound: 2, threads: vec![vec![path("m/44'/60'/0'/0/0"), path("m/2147483648")], vec![path("m/44'/60'/0'"), path("m/0")]], max_schedules: 50_000, warmup: vec![] },
+        Scenario { name: "signature-texts-2t", pid: "C15", bound: 2, threads: vec![vec![sigt(0, 0x11, false), sigt(0, 0x11, true)], vec![sigt(1, 0x22, false), sigt(0, 0x11, false)]], max_schedules: 50_000, warmup: vec![] },
+        Scenario { name: "typed-data-accept-and-refuse-2t", pid: "C09", bound: 2, threads: vec![vec![typed(&d1), typed(&d4)], vec![typed(&d4), typed(&d1)]], max_schedules: 50_000, warmup: vec![] },
+        Scenario { name: "typed-data-domain-types-2t", pid: "C20", bound: 2, threads: vec![vec![typed(&d1), typed(&d3)], vec![typed(&d3), typed(&d1)]], max_schedules: 50_000, warmup: vec![] },
+        Scenario { name: "transactions-same-document-two-keys-2t", pid: "C07", bound: 2, threads: vec![vec![txop(Kind::Eip2930, 0), txop(Kind::Legacy, 1)], vec![txop(Kind::Eip2930, 1), txop(Kind::Legacy, 0)]], max_schedules: 50_000, warmup: vec![] },
+        Scenario { name: "first-use-of-the-word-list-2t", pid: "C01", bound: 3, threads: vec![vec![parse(&pa)], vec![parse(&pb)]], max_schedules: 50_000, warmup: vec![] },
+        Scenario { name: "parse-valid-invalid-long-2t", pid: "C01", bound: 2, threads: vec![vec![parse(&pa), parse(&bad)], vec![parse(&pc), parse(&pa)]], max_schedules: 50_000, warmup: vec![] },
+        Scenario { name: "seed-same-words-other-passphrase-2t", pid: "C02", bound: 2, threads: vec![vec![seed(&pa, "")], vec![seed(&pa, "TREZOR")]], max_schedules: 50_000, warmup: vec![] },
+        Scenario { name: "seed-other-words-2t", pid: "C02", bound: 2, threads: vec![vec![seed(&pa, "TREZOR"), seed(&pb, "")], vec![seed(&pb, "TREZOR")]], max_schedules: 50_000, warmup: vec![] },
+        Scenario { name: "derive-prefix-chain-two-seeds-2t", pid: "C03", bound: 2, threads: vec![vec![derive(0, &acct(0)), derive(0, &[44 | HARD])], vec![derive(1, &acct(0)), derive(0, &[44 | HARD, 60 | HARD, HARD])]], max_schedules: 50_000, warmup: vec![] },
+        Scenario { name: "derive-siblings-2t", pid: "C03", bound: 2, threads: vec![vec![derive(0, &acct(0)), derive(0, &acct(1))], vec![derive(0, &acct(1)), derive(1, &acct(1))]], max_schedules: 50_000, warmup: vec![] },
+        Scenario { name: "address-of-different-keys-2t", pid: "C04", bound: 2, threads: vec![vec![addr(0), addr(2)], vec![addr(1), addr(0)]], max_schedules: 50_000, warmup: vec![] },
+        Scenario { name: "sign-different-keys-2t", pid: "C05", bound: 2, threads: vec![vec![sign(0, 0x11), sign(0, 0x22)], vec![sign(1, 0x11), sign(0, 0x11)]], max_schedules: 50_000, warmup: vec![] },
+        Scenario { name: "sign-three-keys-3t", pid: "C05", bound: 2, threads: vec![vec![sign(0, 0x11)], vec![sign(1, 0x11)], vec![sign(2, 0x11)]], max_schedules: 50_000, warmup: vec![] },
+        Scenario { name: "transactions-of-two-kinds-two-keys-2t", pid: "C06", bound: 2, threads: vec![vec![txop(Kind::Legacy, 0), txop(Kind::Eip1559, 0)], vec![txop(Kind::Eip1559, 1), txop(Kind::Eip2930, 0)]], max_schedules: 50_000, warmup: vec![] },
+        Scenario { name: "typed-data-same-names-other-members-2t", pid: "C08", bound: 2, threads: vec![vec![typed(&d1), typed(&d2)], vec![typed(&d2), typed(&d1)]], max_schedules: 50_000, warmup: vec![] },
+        Scenario { name: "generate-2t", pid: "C12", bound: 3, threads: vec![vec![Op::Random { words: 12 }], vec![Op::Random { words: 24 }]], max_schedules: 50_000, warmup: vec![] },
+        Scenario { name: "generate-then-parse-2t", pid: "C12", bound: 2, threads: vec![vec![Op::Random { words: 12 }, Op::Random { words: 12 }], vec![Op::Random { words: 12 }, parse(&pa)]], max_schedules: 50_000, warmup: vec![] },
     ];
     if thorough {
-        v.push(Scenario { name: "first-use-of-the-word-list-3t", pid: "C01", bound: 3, threads: vec![vec![parse(&pa)], vec![parse(&pb)], vec![parse(&bad)]], max_schedules: 400_000 });
-        v.push(Scenario { name: "sign-different-keys-2t-b4", pid: "C05", bound: 4, threads: vec![vec![sign(0, 0x11), sign(0, 0x22)], vec![sign(1, 0x11), sign(0, 0x11)]], max_schedules: 400_000 });
-        v.push(Scenario { name: "sign-three-keys-3t-b3", pid: "C05", bound: 3, threads: vec![vec![sign(0, 0x11), sign(1, 0x22)], vec![sign(1, 0x11)], vec![sign(2, 0x11), sign(0, 0x22)]], max_schedules: 400_000 });
-        v.push(Scenario { name: "derive-three-threads-3t", pid: "C03", bound: 3, threads: vec![vec![derive(0, &acct(0))], vec![derive(0, &[44 | HARD])], vec![derive(1, &acct(0))]], max_schedules: 400_000 });
-        v.push(Scenario { name: "generate-3t", pid: "C12", bound: 3, threads: vec![vec![Op::Random { words: 12 }], vec![Op::Random { words: 15 }], vec![Op::Random { words: 24 }]], max_schedules: 400_000 });
-        v.push(Scenario { name: "mixed-3t", pid: "C17", bound: 2, threads: vec![vec![parse(&pa), sign(0, 0x11)], vec![seed(&pb, ""), typed(&d1)], vec![derive(0, &acct(0)), txop(Kind::Legacy, 1)]], max_schedules: 400_000 });
+        v.push(Scenario { name: "first-use-of-the-word-list-3t", pid: "C01", bound: 3, threads: vec![vec![parse(&pa)], vec![parse(&pb)], vec![parse(&bad)]], max_schedules: 400_000, warmup: vec![] });
+        v.push(Scenario { name: "sign-different-keys-2t-b4", pid: "C05", bound: 4, threads: vec![vec![sign(0, 0x11), sign(0, 0x22)], vec![sign(1, 0x11), sign(0, 0x11)]], max_schedules: 400_000, warmup: vec![] });
+        v.push(Scenario { name: "sign-three-keys-3t-b3", pid: "C05", bound: 3, threads: vec![vec![sign(0, 0x11), sign(1, 0x22)], vec![sign(1, 0x11)], vec![sign(2, 0x11), sign(0, 0x22)]], max_schedules: 400_000, warmup: vec![] });
+        v.push(Scenario { name: "derive-three-threads-3t", pid: "C03", bound: 3, threads: vec![vec![derive(0, &acct(0))], vec![derive(0, &[44 | HARD])], vec![derive(1, &acct(0))]], max_schedules: 400_000, warmup: vec![] });
+        v.push(Scenario { name: "generate-3t", pid: "C12", bound: 3, threads: vec![vec![Op::Random { words: 12 }], vec![Op::Random { words: 15 }], vec![Op::Random { words: 24 }]], max_schedules: 400_000, warmup: vec![] });
+        v.push(Scenario { name: "mixed-3t", pid: "C17", bound: 2, threads: vec![vec![parse(&pa), sign(0, 0x11)], vec![seed(&pb, ""), typed(&d1)], vec![derive(0, &acct(0)), txop(Kind::Legacy, 1)]], max_schedules: 400_000, warmup: vec![] });
     }
     v
 }
@@ -134,7 +172,7 @@ fn explore(sc: &Scenario, result_path: &str, checkpoint: &str, replay: bool) {
     let violation: Arc<Mutex<Option<String>>> = Default::default();
     let (o2, v2, sc2) = (outcomes.clone(), violation.clone(), sc.clone());
     let mut b = loom::model::Builder::new();
-    b.preemption_bound = Some(sc.bound); b.max_threads = sc.threads.len() + 2; b.max_branches = 100_000; b.checkpoint_file = Some(checkpoint.into()); b.checkpoint_interval = 1;
+    b.preemption_bound = Some(sc.bound); b.max_threads = sc.threads.len() + 3; b.max_branches = 100_000; b.checkpoint_file = Some(checkpoint.into()); b.checkpoint_interval = 1;
     b.max_permutations = Some(if replay { 2 } else { sc.max_schedules });
     if !replay { let _ = std::fs::remove_file(checkpoint); }
     let start = std::time::Instant::now();
@@ -144,6 +182,9 @@ fn explore(sc: &Scenario, result_path: &str, checkpoint: &str, replay: bool) {
         POINT.with(|c| *c.borrow_mut() = Some(Arc::new(loom::sync::atomic::AtomicUsize::new(0)))); CURSORS.with(|c| c.borrow_mut().clear()); STREAM_IDS.with(|c| c.borrow_mut().clear());
         // every thread of the scenario is spawned with a large stack (elliptic-curve arithmetic overflows loom's default
         // coroutine stack); the model's own thread only spawns and joins
+        // the warm-up runs on a thread of its own as well (stack size), one call after the other, before the others are spawned
+        let warm = sc2.warmup.clone();
+        let warm_results: Vec<Result<String, String>> = if warm.is_empty() { Vec::new() } else { loom::thread::Builder::new().stack_size(1 << 18).spawn(move || warm.iter().map(|o| o.run()).collect::<Vec<_>>()).expect("spawn").join().expect("the warm-up thread panicked") };
         let handles: Vec<_> = sc2.threads.iter().cloned().map(|ops| loom::thread::Builder::new().stack_size(1 << 18).spawn(move || ops.iter().map(|o| o.run()).collect::<Vec<_>>()).expect("spawn")).collect();
         let mut results: Vec<Vec<Result<String, String>>> = Vec::new();
         for h in handles { results.push(h.join().expect("a thread of the scenario panicked")); }
@@ -152,6 +193,8 @@ fn explore(sc: &Scenario, result_path: &str, checkpoint: &str, replay: bool) {
         // entropy is a run of the bytes of one of the streams, and no byte is used by two generations
         let n_streams = STREAM_IDS.with(|c| c.borrow().len()); let streams: Vec<Vec<u8>> = (0..n_streams).map(stream_of).collect();
         let mut outcome = String::new(); let mut used: Vec<(usize, usize, usize)> = Vec::new();
+        if let Some((k, Err(m))) = warm_results.iter().enumerate().find(|(_, r)| r.is_err()) { outcome = format!("VIOLATION warm-up call {} ({}): {m}", k + 1, sc2.warmup[k].label()); }
+        if outcome.is_empty() {
         'all: for (t, rs) in results.iter().enumerate() { for (k, r) in rs.iter().enumerate() {
             match r {
                 Err(m) => { outcome = format!("VIOLATION thread {t} call {} ({}): {m}", k + 1, sc2.threads[t][k].label()); break 'all; }
@@ -163,6 +206,7 @@ fn explore(sc: &Scenario, result_path: &str, checkpoint: &str, replay: bool) {
                         Some((si, a, b)) => { if used.iter().any(|(s2, a2, b2)| *s2 == si && a < *b2 && *a2 < b) { outcome = format!("VIOLATION thread {t} call {}: bytes {a}..{b} of the entropy source's answers were used for two generations", k + 1); break 'all; } used.push((si, a, b)); } } }
                 Ok(_) => {}
             } } }
+        }
         if outcome.is_empty() { outcome = results.iter().map(|rs| rs.iter().map(|r| { let o = r.as_ref().unwrap(); if o.starts_with("phrase:") { "phrase".to_string() } else { o.clone() } }).collect::<Vec<_>>().join(",")).collect::<Vec<_>>().join(" | "); }
         *o2.lock().unwrap().entry(outcome.clone()).or_insert(0) += 1;
         if outcome.starts_with("VIOLATION") { *v2.lock().unwrap() = Some(outcome.clone()); panic!("{outcome}"); }
@@ -207,7 +251,7 @@ fn main() {
     let (mut states, mut evals) = (0u64, 0u64);
     for h in handles {
         let (sc, text, code, stderr) = h.join().unwrap();
-        let desc: Vec<Vec<String>> = sc.threads.iter().map(|t| t.iter().map(|o| o.label()).collect()).collect();
+        let mut desc: Vec<Vec<String>> = sc.threads.iter().map(|t| t.iter().map(|o| o.label()).collect()).collect(); if !sc.warmup.is_empty() { desc.insert(0, std::iter::once("warm-up, before the threads start:".to_string()).chain(sc.warmup.iter().map(|o| o.label())).collect()); }
         let replay = serde_json::json!({"sweep": sc.name, "index": 0, "kind": "libloom", "threads": desc, "checkpoint": format!("{ckdir}/libloom-{}.ckpt", sc.name)});
         match text.and_then(|t| serde_json::from_str::<serde_json::Value>(&t).ok()) {
             None if stderr.contains("already borrowed") || stderr.contains("already mutably borrowed") => { notes.push(format!("scenario {} given up: the implementation keeps thread-local state that loom's threads share; not explored", sc.name)); }
